@@ -198,7 +198,12 @@ def run_property(prop, tier, seed, model_cfgs_quick, model_cfgs_thorough, trace_
     t0 = time.time()
     cfgs = model_cfgs_quick if tier == "quick" else model_cfgs_thorough
     extra_cov = extra(prop, tier, seed) if extra else {}     # cheap function-level tables first
-    mres = model(prop, cfgs, timeout=model_timeout_quick if tier == "quick" else model_timeout_thorough)
+    if os.environ.get("VERIF_MATRIX_SKIP_MODEL"):
+        # tools/seed_matrix.py only: the system model does not depend on /repo, so re-checking it for every seeded change is skipped there
+        log(f"[{prop}] model part skipped (VERIF_MATRIX_SKIP_MODEL)")
+        mres = [{"cfg": c if isinstance(c, str) else c[0], "states": 0, "transitions": 0, "depth": 0, "exhaustive": False, "wall_s": 0.0} for c in cfgs]
+    else:
+        mres = model(prop, cfgs, timeout=model_timeout_quick if tier == "quick" else model_timeout_thorough)
     runs = run_random(prop, seed, tier, suffix=suffix)
     scn_runs = run_scenarios(prop)
     for sr in scn_runs:
